@@ -6,9 +6,10 @@ import re
 import common
 
 TITLE = 'All replicas of a board agree with the table manager'
-LEAN_TARGETS = ['BridgeVerif.Props.C11', 'BridgeVerif.Props.C11a', 'BridgeVerif.Translated.Play']
-AUDIT_PROPS = ['C11', 'C11a', 'Translated.Play']
-REQUIRED = ['Translated.Play.observed_play_translated', 'Translated.Play.observed_init_translated', 'Translated.Play.play_card_translated',
+LEAN_TARGETS = ['BridgeVerif.Props.C11', 'BridgeVerif.Props.C11a', 'BridgeVerif.Translated.Play', 'BridgeVerif.Translated.NetHelpers']
+AUDIT_PROPS = ['C11', 'C11a', 'Translated.Play', 'Translated.NetHelpers']
+REQUIRED = ['Translated.NetHelpers.nh_weak_bid_translated',
+            'Translated.Play.observed_play_translated', 'Translated.Play.observed_init_translated', 'Translated.Play.play_card_translated',
             'server_reads_the_calls', 'client_auction_replica', 'client_contract_is_servers', 'server_plays_the_cards',
             'client_play_replica', 'bundled_clients_conform', 'bundled_client_completes_session', 'bundled_client_follows_the_messages',
             'C11a.observer_simulates', 'C11a.observer_never_rejects_accepted', 'C11a.feed_public_state', 'C11a.related_agree']
@@ -36,7 +37,7 @@ REQUIRED_COUNTERS = {t: ['lockstep_boards', 'lockstep_refused_plays', 'observer_
 
 
 # areas of the pure core whose TRANSLATION (Generated/PyCore.lean) is run next to the real code in this check
-TRANSLATED_AREAS = ('play',)
+TRANSLATED_AREAS = ('play', 'net')
 
 def cases(ctx):
     return []
